@@ -143,71 +143,81 @@ Definition TextAt (r : rpos) : Prop :=
   rp_text_offset r <> 0 ->
   exists n i o t m, path_at r (rp_depth r) = Some (n, i, o) /\ child_at n i = Some (Text t m).
 
-(* children after the path's child at every level are valid (plus the child at the final index) *)
-Definition AfterOK (r : rpos) : Prop :=
-  forall d n i o, path_at r d = Some (n, i, o) -> forall j c, child_at n j = Some c ->
-    (i < j \/ (d = rp_depth r /\ j = i)) -> V c.
-(* children before the path's child at every level are valid (plus the final child when it is cut) *)
-Definition BeforeOK (r : rpos) : Prop :=
-  forall d n i o, path_at r d = Some (n, i, o) -> forall j c, child_at n j = Some c ->
-    (j < i \/ (d = rp_depth r /\ j = i /\ rp_text_offset r <> 0)) -> V c.
+(* the text node a position points into is valid (it is cut, its marks are kept) *)
+Definition LastOK (r : rpos) : Prop :=
+  rp_text_offset r <> 0 ->
+  forall n i o c, path_at r (rp_depth r) = Some (n, i, o) -> child_at n i = Some c -> V c.
+(* from depth D down: the children after the path's child are valid (and the child at the final index) *)
+Definition AfterFrom (r : rpos) (D : nat) : Prop :=
+  forall d n i o, D <= d -> path_at r d = Some (n, i, o) -> forall j c, child_at n j = Some c ->
+    (i < j \/ (rp_depth r <= d /\ j = i)) -> V c.
+(* from depth D down: the children before the path's child are valid *)
+Definition BeforeFrom (r : rpos) (D : nat) : Prop :=
+  forall d n i o, D <= d -> path_at r d = Some (n, i, o) -> forall j c, child_at n j = Some c -> j < i -> V c.
+(* at depth d: the children strictly between the two paths are valid *)
+Definition RangeOK (sp e : rpos) (d : nat) : Prop :=
+  forall n ei oe si, path_at e d = Some (n, ei, oe) -> rp_index sp d = Ok si ->
+    forall j c, child_at n j = Some c -> j < ei -> (si < j \/ (rp_depth sp <= d /\ j = si)) -> V c.
 Definition PathMC (r : rpos) : Prop := forall d n i o, path_at r d = Some (n, i, o) -> MC n.
 
 Lemma child_at_In n j c : child_at n j = Some c -> In c (node_content n).
 Proof. unfold child_at. apply nth_error_In. Qed.
 
-Lemma PathV_AfterOK r : PathV r -> AfterOK r.
+Lemma PathV_child r d n i o j c : PathV r -> path_at r d = Some (n, i, o) -> child_at n j = Some c -> V c.
 Proof.
-  intros H d n i o Hp j c Hc _. unfold path_at in Hp. apply nth_error_In in Hp. specialize (H _ _ _ Hp).
+  intros H Hp Hc. unfold path_at in Hp. apply nth_error_In in Hp. specialize (H _ _ _ Hp).
   destruct n as [t m|ty a m cs]; [destruct j; discriminate|]. apply (V_children _ _ _ _ H). apply (child_at_In _ _ _ Hc).
 Qed.
-Lemma PathV_BeforeOK r : PathV r -> BeforeOK r.
-Proof.
-  intros H d n i o Hp j c Hc _. unfold path_at in Hp. apply nth_error_In in Hp. specialize (H _ _ _ Hp).
-  destruct n as [t m|ty a m cs]; [destruct j; discriminate|]. apply (V_children _ _ _ _ H). apply (child_at_In _ _ _ Hc).
-Qed.
+Lemma PathV_AfterFrom r D : PathV r -> AfterFrom r D.
+Proof. intros H d n i o _ Hp j c Hc _. eapply PathV_child; eauto. Qed.
+Lemma PathV_BeforeFrom r D : PathV r -> BeforeFrom r D.
+Proof. intros H d n i o _ Hp j c Hc _. eapply PathV_child; eauto. Qed.
+Lemma PathV_LastOK r : PathV r -> LastOK r.
+Proof. intros H _ n i o c Hp Hc. eapply PathV_child; eauto. Qed.
 Lemma PathV_PathMC r : PathV r -> PathMC r.
 Proof. intros H d n i o Hp. apply V_MC. unfold path_at in Hp. apply nth_error_In in Hp. eapply H; eauto. Qed.
+Lemma AfterFrom_mono r D D' : D <= D' -> AfterFrom r D -> AfterFrom r D'.
+Proof. intros Hle H d n i o Hd. apply H. lia. Qed.
+Lemma BeforeFrom_mono r D D' : D <= D' -> BeforeFrom r D -> BeforeFrom r D'.
+Proof. intros Hle H d n i o Hd. apply H. lia. Qed.
 
 Lemma rp_node_path r d n : rp_node r d = Ok n -> exists i o, path_at r d = Some (n, i, o).
 Proof. unfold rp_node. destruct (path_at r d) as [[[n' i] o]|]; intros H; inversion H; subst; eauto. Qed.
 Lemma rp_index_path r d i : rp_index r d = Ok i -> exists n o, path_at r d = Some (n, i, o).
 Proof. unfold rp_index. destruct (path_at r d) as [[[n' i'] o]|]; intros H; inversion H; subst; eauto. Qed.
 
-Lemma rp_node_after_V r x : rp_node_after s r = Ok (Some x) -> AfterOK r -> TextAt r -> V x.
+Lemma rp_node_after_V r x :
+  rp_node_after s r = Ok (Some x) -> rp_text_offset r <> 0 -> LastOK r -> TextAt r -> V x.
 Proof.
-  unfold rp_node_after, rp_parent. intros H Ha Ht.
+  unfold rp_node_after, rp_parent. intros H Ez Ha Ht.
   destruct (rp_node r (rp_depth r)) as [parent|] eqn:En; [|discriminate]. cbn [bind] in H.
   destruct (rp_index r (rp_depth r)) as [index|] eqn:Ei; [|discriminate]. cbn [bind] in H.
   destruct (rp_node_path _ _ _ En) as (i0 & o0 & Hp). destruct (rp_index_path _ _ _ Ei) as (n1 & o1 & Hp1).
   rewrite Hp in Hp1. inversion Hp1; subst n1 i0 o1. clear Hp1.
   destruct (child_at parent index) as [child|] eqn:Ec.
-  - assert (Hvc : V child) by (eapply (Ha _ _ _ _ Hp index child Ec); right; auto).
-    destruct (rp_text_offset r =? 0) eqn:Ez.
-    + inversion H; subst. exact Hvc.
-    + apply Nat.eqb_neq in Ez. destruct (Ht Ez) as (n2 & i2 & o2 & t & m & Hp2 & Hc2).
-      rewrite Hp in Hp2. inversion Hp2; subst n2 i2 o2. rewrite Ec in Hc2. inversion Hc2; subst child.
-      destruct (text_cut t m (rp_text_offset r) (text_length t)) as [c|] eqn:Et; [|discriminate].
-      cbn [bind] in H. inversion H; subst. eapply text_cut_V; [exact Et|]. apply (proj1 (V_text t m)). exact Hvc.
+  - assert (Hvc : V child) by (eapply (Ha Ez _ _ _ _ Hp Ec)).
+    destruct (rp_text_offset r =? 0) eqn:Ez'; [apply Nat.eqb_eq in Ez'; contradiction|].
+    destruct (Ht Ez) as (n2 & i2 & o2 & t & m & Hp2 & Hc2).
+    rewrite Hp in Hp2. inversion Hp2; subst n2 i2 o2. rewrite Ec in Hc2. inversion Hc2; subst child.
+    destruct (text_cut t m (rp_text_offset r) (text_length t)) as [c|] eqn:Et; [|discriminate].
+    cbn [bind] in H. inversion H; subst. eapply text_cut_V; [exact Et|]. apply (proj1 (V_text t m)). exact Hvc.
   - destruct (index =? length (node_content parent)); discriminate.
 Qed.
 
-Lemma rp_node_before_V r x : rp_node_before s r = Ok (Some x) -> BeforeOK r -> TextAt r -> V x.
+Lemma rp_node_before_V r x :
+  rp_node_before s r = Ok (Some x) -> rp_text_offset r <> 0 -> LastOK r -> TextAt r -> V x.
 Proof.
-  unfold rp_node_before, rp_parent. intros H Hb Ht.
+  unfold rp_node_before, rp_parent. intros H Ez Hb Ht.
   destruct (rp_node r (rp_depth r)) as [parent|] eqn:En; [|discriminate]. cbn [bind] in H.
   destruct (rp_index r (rp_depth r)) as [index|] eqn:Ei; [|discriminate]. cbn [bind] in H.
   destruct (rp_node_path _ _ _ En) as (i0 & o0 & Hp). destruct (rp_index_path _ _ _ Ei) as (n1 & o1 & Hp1).
   rewrite Hp in Hp1. inversion Hp1; subst n1 i0 o1. clear Hp1.
-  destruct (rp_text_offset r =? 0) eqn:Ez; cbn [negb] in H.
-  - destruct index as [|i']; [discriminate|].
-    destruct (child_at parent i') as [c|] eqn:Ec; [|discriminate]. inversion H; subst.
-    eapply (Hb _ _ _ _ Hp i' x Ec). left. lia.
-  - apply Nat.eqb_neq in Ez. destruct (Ht Ez) as (n2 & i2 & o2 & t & m & Hp2 & Hc2).
-    rewrite Hp in Hp2. inversion Hp2; subst n2 i2 o2. rewrite Hc2 in H.
-    assert (Hvc : V (Text t m)) by (eapply (Hb _ _ _ _ Hp index _ Hc2); right; auto).
-    destruct (text_cut t m 0 (rp_text_offset r)) as [c|] eqn:Et; [|discriminate].
-    cbn [bind] in H. inversion H; subst. eapply text_cut_V; [exact Et|]. apply (proj1 (V_text t m)). exact Hvc.
+  destruct (rp_text_offset r =? 0) eqn:Ez'; [apply Nat.eqb_eq in Ez'; contradiction|]. cbn [negb] in H.
+  destruct (Ht Ez) as (n2 & i2 & o2 & t & m & Hp2 & Hc2).
+  rewrite Hp in Hp2. inversion Hp2; subst n2 i2 o2. rewrite Hc2 in H.
+  assert (Hvc : V (Text t m)) by (eapply (Hb Ez _ _ _ _ Hp Hc2)).
+  destruct (text_cut t m 0 (rp_text_offset r)) as [c|] eqn:Et; [|discriminate].
+  cbn [bind] in H. inversion H; subst. eapply text_cut_V; [exact Et|]. apply (proj1 (V_text t m)). exact Hvc.
 Qed.
 
 Lemma In_sub_nth {A} (c : A) k a l :
@@ -226,13 +236,26 @@ Proof.
     rewrite <- Es' in H. destruct (IH (S a) l H) as (j & Hj & Hn). exists j. split; [lia|auto].
 Qed.
 
+(* the children add_range copies whole *)
+Definition MidOK (start end_ : option rpos) (depth : nat) : Prop :=
+  match end_, start with
+  | Some e, None =>
+    forall n ei o, path_at e depth = Some (n, ei, o) -> forall j c, child_at n j = Some c -> j < ei -> V c
+  | Some e, Some sp => RangeOK sp e depth
+  | None, Some sp =>
+    forall n si o, path_at sp depth = Some (n, si, o) -> forall j c, child_at n j = Some c ->
+      (si < j \/ (rp_depth sp <= depth /\ j = si)) -> V c
+  | None, None => True
+  end.
+
 Lemma add_range_VL start end_ depth target l :
   add_range s start end_ depth target = Ok l -> VL target ->
-  (forall sp, start = Some sp -> AfterOK sp /\ TextAt sp) ->
-  (forall e, end_ = Some e -> BeforeOK e /\ TextAt e) ->
+  (forall sp, start = Some sp -> LastOK sp /\ TextAt sp) ->
+  (forall e, end_ = Some e -> LastOK e /\ TextAt e) ->
+  MidOK start end_ depth ->
   VL l.
 Proof.
-  unfold add_range. intros H Ht Hs He.
+  unfold add_range. intros H Ht Hs He Hmo.
   destruct (match end_ with Some e => rp_node e depth | None => match start with Some st => rp_node st depth | None => Err ErrInternal end end)
     as [n|] eqn:En; [|discriminate]. cbn [bind] in H.
   destruct (match end_ with Some e => rp_index e depth | None => Ok (length (node_content n)) end) as [end_index|] eqn:Eei;
@@ -247,42 +270,43 @@ Proof.
                                    match na with Some x => Ok (S si, add_node x target) | None => Err ErrInternal end
                               else Ok (si, target)
             end) as [[start_index target1]|] eqn:Est; [|discriminate]. cbn [bind] in H.
-  assert (Ht1 : VL target1).
+  assert (Ht1 : VL target1 /\
+                match start with
+                | None => start_index = 0
+                | Some sp => exists si, rp_index sp depth = Ok si /\
+                                        (start_index = S si \/ (start_index = si /\ rp_depth sp <= depth))
+                end).
   { destruct start as [sp|]; [|inversion Est; subst; auto].
     destruct (rp_index sp depth) as [si|]; [|discriminate]. cbn [bind] in Est.
-    destruct (depth <? rp_depth sp); [inversion Est; subst; auto|].
-    destruct (negb (rp_text_offset sp =? 0)); [|inversion Est; subst; auto].
+    destruct (depth <? rp_depth sp) eqn:Ed; [inversion Est; subst; split; [auto|exists si; auto]|]. apply Nat.ltb_ge in Ed.
+    destruct (rp_text_offset sp =? 0) eqn:Ez; cbn [negb] in Est; [inversion Est; subst; split; [auto|exists start_index; auto]|].
+    apply Nat.eqb_neq in Ez.
     destruct (rp_node_after s sp) as [[x|]|] eqn:Ena; try discriminate. cbn [bind] in Est. inversion Est; subst.
-    destruct (Hs sp eq_refl) as [Ha Hta]. apply add_node_VL; auto. eapply rp_node_after_V; eauto. }
+    destruct (Hs sp eq_refl) as [Ha Hta]. split; [|eauto]. apply add_node_VL; auto. eapply rp_node_after_V; eauto. }
+  destruct Ht1 as [Ht1 Hsi].
   destruct (length (node_content n) <? end_index); [discriminate|]. cbn [bind] in H.
   (* the children in between *)
   assert (Hmid : VL (firstn (end_index - start_index) (skipn start_index (node_content n)))).
   { intros c Hc. apply In_sub_nth in Hc. destruct Hc as (j & Hj & Hn).
     destruct end_ as [e|].
-    - destruct (He e eq_refl) as [Hb _].
-      destruct (rp_node_path _ _ _ En) as (i0 & o0 & Hp). destruct (rp_index_path _ _ _ Eei) as (n1 & o1 & Hp1).
+    - destruct (rp_node_path _ _ _ En) as (i0 & o0 & Hp). destruct (rp_index_path _ _ _ Eei) as (n1 & o1 & Hp1).
       rewrite Hp in Hp1. inversion Hp1; subst n1 i0 o1.
-      eapply (Hb _ _ _ _ Hp j c Hn). left. lia.
-    - destruct start as [sp|]; [|discriminate].
-      destruct (Hs sp eq_refl) as [Ha _].
+      destruct start as [sp|]; cbn [MidOK] in Hmo.
+      + destruct Hsi as (si & Esi & Hcase).
+        eapply (Hmo _ _ _ _ Hp Esi j c Hn); [lia|]. destruct Hcase as [->|[-> Hd]]; [left; lia|].
+        destruct (Nat.eq_dec j si) as [->|Hne]; [right; auto|left; lia].
+      + subst start_index. eapply (Hmo _ _ _ Hp j c Hn). lia.
+    - destruct start as [sp|]; [|discriminate]. cbn [MidOK] in Hmo.
+      destruct Hsi as (si & Esi & Hcase).
       destruct (rp_node_path _ _ _ En) as (i0 & o0 & Hp).
-      destruct (rp_index sp depth) as [si|] eqn:Esi; [|discriminate]. cbn [bind] in Est.
       destruct (rp_index_path _ _ _ Esi) as (n1 & o1 & Hp1). rewrite Hp in Hp1. inversion Hp1; subst n1 i0 o1.
-      destruct (depth <? rp_depth sp) eqn:Ed.
-      + inversion Est; subst. eapply (Ha _ _ _ _ Hp j c Hn). left. lia.
-      + destruct (negb (rp_text_offset sp =? 0)).
-        * destruct (rp_node_after s sp) as [[x|]|]; try discriminate. cbn [bind] in Est. inversion Est; subst.
-          eapply (Ha _ _ _ _ Hp j c Hn). left. lia.
-        * inversion Est; subst. eapply (Ha _ _ _ _ Hp j c Hn).
-          destruct (Nat.eq_dec j start_index) as [->|Hne]; [|left; lia].
-          right. split; auto.
-          (* depth is a valid path index and not below the position's depth: it is the depth *)
-          apply Nat.ltb_ge in Ed. unfold path_at in Hp.
-          assert (depth < length (rp_path sp)) by (apply nth_error_Some; congruence).
-          unfold rp_depth in *. lia. }
+      eapply (Hmo _ _ _ Hp j c Hn). destruct Hcase as [->|[-> Hd]]; [left; lia|].
+      destruct (Nat.eq_dec j si) as [->|Hne]; [right; auto|left; lia]. }
   pose proof (add_all_VL _ _ Hmid Ht1) as Hall.
   destruct end_ as [e|]; [|inversion H; subst; exact Hall].
-  destruct ((rp_depth e =? depth) && negb (rp_text_offset e =? 0)); [|inversion H; subst; exact Hall].
+  destruct (rp_depth e =? depth); cbn [andb] in H; [|inversion H; subst; exact Hall].
+  destruct (rp_text_offset e =? 0) eqn:Ez; cbn [negb] in H; [inversion H; subst; exact Hall|].
+  apply Nat.eqb_neq in Ez.
   destruct (rp_node_before s e) as [[x|]|] eqn:Enb; try discriminate. cbn [bind] in H. inversion H; subst.
   destruct (He e eq_refl) as [Hb Hte]. apply add_node_VL; auto. eapply rp_node_before_V; eauto.
 Qed.
@@ -298,15 +322,21 @@ Proof.
   destruct (rp_node_path _ _ _ En) as (i & o & Hp). eapply Hm; eauto.
 Qed.
 
+Lemma MidOK_before e depth : BeforeFrom e depth -> MidOK None (Some e) depth.
+Proof. intros H n ei o Hp j c Hc Hj. eapply H; eauto. Qed.
+Lemma MidOK_after sp depth : AfterFrom sp depth -> MidOK (Some sp) None depth.
+Proof. intros H n si o Hp j c Hc Hj. eapply H; eauto. Qed.
+
 Lemma two_way_VL : forall fuel from to depth l,
   replace_two_way s fuel from to depth = Ok l ->
-  BeforeOK from -> TextAt from -> PathMC from -> AfterOK to -> TextAt to -> VL l.
+  BeforeFrom from depth -> LastOK from -> TextAt from -> PathMC from ->
+  AfterFrom to depth -> LastOK to -> TextAt to -> VL l.
 Proof.
-  induction fuel as [|fuel IH]; intros from to depth l H Hbf Htf Hmf Hat Htt; [discriminate|].
+  induction fuel as [|fuel IH]; intros from to depth l H Hbf Hlf Htf Hmf Hat Hlt Htt; [discriminate|].
   cbn [replace_two_way] in H.
   destruct (add_range s None (Some from) depth []) as [c1|] eqn:E1; [|discriminate]. cbn [bind] in H.
   assert (Hc1 : VL c1).
-  { eapply add_range_VL; eauto using VL_nil; [intros sp Hsp; discriminate|].
+  { eapply add_range_VL; [exact E1|apply VL_nil|intros sp Hsp; discriminate| |apply MidOK_before; auto].
     intros e He; inversion He; subst; auto. }
   destruct (if depth <? rp_depth from
             then do ty <- joinable s from to (S depth);
@@ -319,20 +349,41 @@ Proof.
     destruct (replace_two_way s fuel from to (S depth)) as [inner|] eqn:Ei; [|discriminate]. cbn [bind] in E2.
     destruct (close s ty inner) as [cl|] eqn:Ec; [|discriminate]. cbn [bind] in E2. inversion E2; subst.
     apply add_node_VL; auto.
-    eapply close_V; [exact Ec | eapply joinable_MC; eauto | eapply IH; eauto]. }
-  eapply add_range_VL; eauto.
-  - intros sp Hsp; inversion Hsp; subst; auto.
-  - intros e He; discriminate.
+    eapply close_V; [exact Ec | eapply joinable_MC; eauto |].
+    eapply IH; [exact Ei|eapply BeforeFrom_mono; [|exact Hbf]; lia|auto|auto|auto|eapply AfterFrom_mono; [|exact Hat]; lia|auto|auto]. }
+  eapply add_range_VL; [exact H|exact Hc2| |intros e He; discriminate|apply MidOK_after; auto].
+  intros sp Hsp; inversion Hsp; subst; auto.
+Qed.
+
+(* how the two sides of the (prepared) slice relate below a depth: they share the spine for a while,
+   then they part, and from there on everything right of the left side and left of the right side,
+   and everything between them at the parting level, is valid *)
+Inductive Sides (from to st en : rpos) : nat -> Prop :=
+| Sides_shared d :
+    d < rp_depth from -> d < rp_depth to ->
+    (exists i, rp_index st d = Ok i /\ rp_index en d = Ok i) ->
+    Sides from to st en (S d) -> Sides from to st en d
+| Sides_parted d :
+    RangeOK st en d -> AfterFrom st (S d) -> BeforeFrom en (S d) -> Sides from to st en d.
+
+Lemma Sides_parted_next from to st en d : Sides from to st en d -> 
+  (RangeOK st en d /\ AfterFrom st (S d) /\ BeforeFrom en (S d)) -> Sides from to st en (S d).
+Proof.
+  intros _ (Hr & Ha & Hb). apply Sides_parted.
+  - intros n ei oe si Hp Hsi j c Hc Hj _. eapply Hb; eauto.
+  - eapply AfterFrom_mono; [|exact Ha]; lia.
+  - eapply BeforeFrom_mono; [|exact Hb]; lia.
 Qed.
 
 Lemma three_way_VL : forall fuel from start end_ to depth l,
   replace_three_way s fuel from start end_ to depth = Ok l ->
-  BeforeOK from -> TextAt from -> PathMC from ->
-  AfterOK start -> TextAt start ->
-  BeforeOK end_ -> TextAt end_ -> PathMC end_ ->
-  AfterOK to -> TextAt to -> VL l.
+  BeforeFrom from depth -> LastOK from -> TextAt from -> PathMC from ->
+  AfterFrom to depth -> LastOK to -> TextAt to ->
+  LastOK start -> TextAt start -> LastOK end_ -> TextAt end_ -> PathMC end_ ->
+  Sides from to start end_ depth -> VL l.
 Proof.
-  induction fuel as [|fuel IH]; intros from start end_ to depth l H Hbf Htf Hmf Has Hts Hbe Hte Hme Hat Htt; [discriminate|].
+  induction fuel as [|fuel IH]; intros from start end_ to depth l H Hbf Hlf Htf Hmf Hat Hlt Htt Hls Hts Hle Hte Hme Hsides;
+    [discriminate|].
   cbn [replace_three_way] in H.
   destruct (if depth <? rp_depth from then do n <- joinable s from start (S depth); Ok (Some n) else Ok None)
     as [open_start|] eqn:Eos; [|discriminate]. cbn [bind] in H.
@@ -340,7 +391,7 @@ Proof.
     as [open_end|] eqn:Eoe; [|discriminate]. cbn [bind] in H.
   destruct (add_range s None (Some from) depth []) as [c1|] eqn:E1; [|discriminate]. cbn [bind] in H.
   assert (Hc1 : VL c1).
-  { eapply add_range_VL; eauto using VL_nil; [intros sp Hsp; discriminate|].
+  { eapply add_range_VL; [exact E1|apply VL_nil|intros sp Hsp; discriminate| |apply MidOK_before; auto].
     intros e He; inversion He; subst; auto. }
   assert (Hos : forall os, open_start = Some os -> MC os).
   { intros os ->. destruct (depth <? rp_depth from); [|discriminate].
@@ -350,59 +401,80 @@ Proof.
   { intros oe ->. destruct (depth <? rp_depth to); [|discriminate].
     destruct (joinable s end_ to (S depth)) as [n|] eqn:Ej; [|discriminate]. cbn [bind] in Eoe.
     inversion Eoe; subst. eapply joinable_MC; eauto. }
+  assert (Hbf' : BeforeFrom from (S depth)) by (eapply BeforeFrom_mono; [|exact Hbf]; lia).
+  assert (Hat' : AfterFrom to (S depth)) by (eapply AfterFrom_mono; [|exact Hat]; lia).
+  (* unless both sides are open at the same child, the sides have parted *)
+  assert (Hparted : (forall si ei os oe, open_start = Some os -> open_end = Some oe ->
+                       rp_index start depth = Ok si -> rp_index end_ depth = Ok ei -> si <> ei) ->
+                    RangeOK start end_ depth /\ AfterFrom start (S depth) /\ BeforeFrom end_ (S depth)).
+  { intros Hne. inversion Hsides as [d Hdf Hdt (i & Hi1 & Hi2) Hnext|d Hr Ha Hb]; subst; [|auto].
+    exfalso. apply Nat.ltb_lt in Hdf, Hdt. rewrite Hdf in Eos. rewrite Hdt in Eoe.
+    destruct (joinable s from start (S depth)) as [os|]; [|discriminate].
+    destruct (joinable s end_ to (S depth)) as [oe|]; [|discriminate]. cbn [bind] in Eos, Eoe.
+    inversion Eos; inversion Eoe; subst. eapply (Hne i i); eauto. }
   (* the middle part *)
   match type of H with
   | bind ?mid _ = _ => destruct mid as [c2|] eqn:E2; [|discriminate]
   end. cbn [bind] in H.
   assert (Hc2 : VL c2).
   { clear H. destruct open_start as [os|]; destruct open_end as [oe|].
-    - destruct (rp_index start depth) as [si|]; [|discriminate]. cbn [bind] in E2.
-      destruct (rp_index end_ depth) as [ei|]; [|discriminate]. cbn [bind] in E2.
-      destruct (si =? ei).
+    - destruct (rp_index start depth) as [si|] eqn:Esi; [|discriminate]. cbn [bind] in E2.
+      destruct (rp_index end_ depth) as [ei|] eqn:Eei; [|discriminate]. cbn [bind] in E2.
+      destruct (si =? ei) eqn:Esame.
       + destruct (check_join s os oe); [|discriminate]. cbn [bind] in E2.
         destruct (replace_three_way s fuel from start end_ to (S depth)) as [inner|] eqn:Ei; [|discriminate].
         cbn [bind] in E2. destruct (close s os inner) as [cl|] eqn:Ec; [|discriminate]. cbn [bind] in E2.
         inversion E2; subst. apply add_node_VL; auto.
-        eapply close_V; [exact Ec | apply Hos; reflexivity | eapply IH; eauto].
-      + destruct (replace_two_way s fuel from start (S depth)) as [inner|] eqn:Ei; [|discriminate].
+        eapply close_V; [exact Ec | apply Hos; reflexivity |].
+        eapply IH; [exact Ei|auto..|].
+        inversion Hsides as [d Hdf Hdt Hidx Hnext|d Hr Ha Hb]; subst; [exact Hnext|].
+        eapply Sides_parted_next; eauto.
+      + apply Nat.eqb_neq in Esame.
+        destruct Hparted as (Hr & Ha & Hb).
+        { intros si' ei' os' oe' _ _ E1' E2'. inversion E1'; inversion E2'; subst; auto. }
+        destruct (replace_two_way s fuel from start (S depth)) as [inner|] eqn:Ei; [|discriminate].
         cbn [bind] in E2. destruct (close s os inner) as [cl|] eqn:Ec; [|discriminate]. cbn [bind] in E2.
         destruct (add_range s (Some start) (Some end_) depth (add_node cl c1)) as [c'|] eqn:Ea; [|discriminate].
         cbn [bind] in E2.
         destruct (replace_two_way s fuel end_ to (S depth)) as [inner2|] eqn:Ei2; [|discriminate].
         cbn [bind] in E2. destruct (close s oe inner2) as [cl2|] eqn:Ec2; [|discriminate]. cbn [bind] in E2.
         inversion E2; subst. apply add_node_VL.
-        * eapply close_V; [exact Ec2 | apply Hoe; reflexivity | eapply two_way_VL; eauto].
-        * eapply add_range_VL; eauto.
-          -- apply add_node_VL; auto. eapply close_V; [exact Ec | apply Hos; reflexivity | eapply two_way_VL; eauto].
+        * eapply close_V; [exact Ec2 | apply Hoe; reflexivity | eapply two_way_VL; [exact Ei2|auto..]].
+        * eapply add_range_VL; [exact Ea| | | |exact Hr].
+          -- apply add_node_VL; auto.
+             eapply close_V; [exact Ec | apply Hos; reflexivity | eapply two_way_VL; [exact Ei|auto..]].
           -- intros sp Hsp; inversion Hsp; subst; auto.
           -- intros e He; inversion He; subst; auto.
-    - destruct (replace_two_way s fuel from start (S depth)) as [inner|] eqn:Ei; [|discriminate].
+    - destruct Hparted as (Hr & Ha & Hb); [intros ? ? ? ? _ HH; discriminate|].
+      destruct (replace_two_way s fuel from start (S depth)) as [inner|] eqn:Ei; [|discriminate].
       cbn [bind] in E2. destruct (close s os inner) as [cl|] eqn:Ec; [|discriminate]. cbn [bind] in E2.
       destruct (add_range s (Some start) (Some end_) depth (add_node cl c1)) as [c''|] eqn:Ea; [|discriminate].
       cbn [bind] in E2. inversion E2; subst.
-      eapply add_range_VL; eauto.
-      + apply add_node_VL; auto. eapply close_V; [exact Ec | apply Hos; reflexivity | eapply two_way_VL; eauto].
+      eapply add_range_VL; [exact Ea| | | |exact Hr].
+      + apply add_node_VL; auto.
+        eapply close_V; [exact Ec | apply Hos; reflexivity | eapply two_way_VL; [exact Ei|auto..]].
       + intros sp Hsp; inversion Hsp; subst; auto.
       + intros e He; inversion He; subst; auto.
-    - cbn [bind] in E2.
+    - destruct Hparted as (Hr & Ha & Hb); [intros ? ? ? ? HH; discriminate|].
+      cbn [bind] in E2.
       destruct (add_range s (Some start) (Some end_) depth c1) as [c''|] eqn:Ea; [|discriminate].
       cbn [bind] in E2.
       destruct (replace_two_way s fuel end_ to (S depth)) as [inner2|] eqn:Ei2; [|discriminate].
       cbn [bind] in E2. destruct (close s oe inner2) as [cl2|] eqn:Ec2; [|discriminate]. cbn [bind] in E2.
       inversion E2; subst. apply add_node_VL.
-      + eapply close_V; [exact Ec2 | apply Hoe; reflexivity | eapply two_way_VL; eauto].
-      + eapply add_range_VL; eauto.
+      + eapply close_V; [exact Ec2 | apply Hoe; reflexivity | eapply two_way_VL; [exact Ei2|auto..]].
+      + eapply add_range_VL; [exact Ea|exact Hc1| | |exact Hr].
         * intros sp Hsp; inversion Hsp; subst; auto.
         * intros e He; inversion He; subst; auto.
-    - cbn [bind] in E2.
+    - destruct Hparted as (Hr & Ha & Hb); [intros ? ? ? ? HH; discriminate|].
+      cbn [bind] in E2.
       destruct (add_range s (Some start) (Some end_) depth c1) as [c''|] eqn:Ea; [|discriminate].
       cbn [bind] in E2. inversion E2; subst.
-      eapply add_range_VL; eauto.
+      eapply add_range_VL; [exact Ea|exact Hc1| | |exact Hr].
       + intros sp Hsp; inversion Hsp; subst; auto.
       + intros e He; inversion He; subst; auto. }
-  eapply add_range_VL; eauto.
-  - intros sp Hsp; inversion Hsp; subst; auto.
-  - intros e He; discriminate.
+  eapply add_range_VL; [exact H|exact Hc2| |intros e He; discriminate|apply MidOK_after; auto].
+  intros sp Hsp; inversion Hsp; subst; auto.
 Qed.
 
 (* ---------------------------------------------------------------- what resolve guarantees *)
@@ -486,7 +558,7 @@ Proof.
     apply nosplit_before. lia.
   - apply Nat.eqb_neq in Ez.
     assert (G : forall (l pre : list node) i cur,
-      cs = pre ++ l -> i = length pre -> cur = frag_size s pre -> cur <= po ->
+      cs = pre ++ l -> i = length pre -> cur = frag_size s pre -> cur < po ->
       (fix walk (l : list node) (i cur : nat) {struct l} : res (list (node * nat * nat) * nat) :=
          match l with
          | [] => Err ErrValue
@@ -521,7 +593,7 @@ Proof.
           * inversion H; subst path po'. split; [eauto|]. split; [apply linked_single|].
             exists n, i, (start + cur). unfold last_entry. simpl. repeat split; auto; try lia.
             -- intros _. eauto.
-            -- unfold n. simpl. rewrite Hcs. apply nosplit_app; auto. simpl. split; auto.
+            -- unfold n. cbn [node_content]. rewrite Hcs. apply nosplit_app; auto. cbn [nosplit]. split; auto.
                apply nosplit_before. lia.
           * destruct (resolve_in s (Elem ty' a' mk' cs') (po - cur - 1) (start + cur + 1)) as [[p2 po2]|e] eqn:Er;
               [|discriminate]. simpl in H. inversion H; subst path po'.
@@ -556,6 +628,254 @@ Proof.
     unfold last_entry in Hlast. rewrite Hlast. intros Hne. destruct (Htx Hne) as (t & m & Hc).
     exists nl, il, ol, t, m. auto.
   - exists nl. unfold rp_parent, rp_node, rp_depth, path_at. simpl. unfold last_entry in Hlast. rewrite Hlast. auto.
+Qed.
+
+(* ---------------------------------------------------------------- cutting and appending fragments *)
+Lemma frag_cut_go_VL : forall l pos from to l',
+  VL l -> nosplit l pos from -> nosplit l pos to -> frag_cut_go s l pos from to = Ok l' -> VL l'.
+Proof.
+  induction l as [|c r IH]; intros pos from to l' Hv Hf Ht H; cbn [frag_cut_go] in H.
+  - destruct (pos <? to); [discriminate|]. inversion H; subst. apply VL_nil.
+  - destruct (pos <? to) eqn:Ept; [|inversion H; subst; apply VL_nil].
+    apply Nat.ltb_lt in Ept. cbn [nosplit] in Hf, Ht. destruct Hf as [Hf1 Hf2], Ht as [Ht1 Ht2].
+    assert (Hr : VL r) by (intros x Hx; apply Hv; right; auto).
+    assert (Hc : V c) by (apply Hv; left; auto).
+    cbv zeta in H. destruct (from <? pos + node_size s c) eqn:Efe.
+    + apply Nat.ltb_lt in Efe.
+      destruct ((pos <? from) || (to <? pos + node_size s c)) eqn:Ecut.
+      * destruct c as [t m|ty a m cs].
+        -- destruct (text_cut t m (from - pos) (Nat.min (text_length t) (to - pos))) as [c'|] eqn:Ec; [|discriminate].
+           cbn [bind] in H. destruct (frag_cut_go s r (pos + node_size s (Text t m)) from to) as [rest|] eqn:Er; [|discriminate].
+           cbn [bind] in H. inversion H; subst. apply VL_cons.
+           ++ eapply text_cut_V; [exact Ec|]. apply (proj1 (V_text t m)). exact Hc.
+           ++ exact (IH _ _ _ _ Hr Hf2 Ht2 Er).
+        -- exfalso. apply orb_prop in Ecut. destruct Ecut as [E|E]; apply Nat.ltb_lt in E.
+           ++ apply Hf1. lia.
+           ++ apply Ht1. lia.
+      * cbn [bind] in H. destruct (frag_cut_go s r (pos + node_size s c) from to) as [rest|] eqn:Er; [|discriminate].
+        cbn [bind] in H. inversion H; subst. apply VL_cons; auto. exact (IH _ _ _ _ Hr Hf2 Ht2 Er).
+    + exact (IH _ _ _ _ Hr Hf2 Ht2 H).
+Qed.
+
+Lemma frag_cut_VL l from to l' :
+  VL l -> nosplit l 0 from -> nosplit l 0 to -> frag_cut s l from to = Ok l' -> VL l'.
+Proof.
+  unfold frag_cut. intros Hv Hf Ht H.
+  destruct ((from =? 0) && (to =? frag_size s l)); [inversion H; subst; auto|].
+  destruct (to <=? from); [inversion H; subst; apply VL_nil|].
+  exact (frag_cut_go_VL _ _ _ _ _ Hv Hf Ht H).
+Qed.
+
+Lemma last_In {A} (a : list A) d : a <> [] -> In (last a d) a.
+Proof.
+  induction a as [|x a IH]; [congruence|]. intros _. destruct a as [|y a]; [left; reflexivity|].
+  right. apply IH. discriminate.
+Qed.
+
+Lemma frag_append_VL a b : VL a -> VL b -> VL (frag_append a b).
+Proof.
+  intros Ha Hb. unfold frag_append. destruct b as [|first b']; auto.
+  destruct a as [|a0 a']; auto. set (a := a0 :: a') in *.
+  assert (Hl : In (last a first) a) by (apply last_In; discriminate).
+  destruct (last a first) as [t m|? ? ? ?] eqn:El; [|apply VL_app; auto].
+  destruct first as [t' m'|? ? ? ?]; [|apply VL_app; auto].
+  destruct (marks_eqb m m'); [|apply VL_app; auto].
+  apply VL_app; [intros x Hx; apply Ha; apply In_removelast; auto|].
+  apply VL_app.
+  - apply VL_cons; [|apply VL_nil]. apply V_text. apply (proj1 (V_text t m)). apply Ha. exact Hl.
+  - intros x Hx. apply Hb. right. exact Hx.
+Qed.
+
+(* ---------------------------------------------------------------- replacing one child by a same-markup node *)
+Lemma forallb_map_eq {A B} (f : B -> bool) (g : A -> B) l : forallb (fun c => f (g c)) l = forallb f (map g l).
+Proof. induction l; simpl; auto. rewrite IHl. reflexivity. Qed.
+
+Lemma valid_content_ext ty l l' :
+  map (node_ty s) l = map (node_ty s) l' -> map node_marks l = map node_marks l' ->
+  valid_content s ty l = valid_content s ty l'.
+Proof.
+  intros Ht Hm. unfold valid_content, match_fragment, types_of.
+  assert (Hlen : length l = length l') by (rewrite <- (map_length (node_ty s) l), Ht, map_length; reflexivity).
+  rewrite !Nat.sub_0_r. cbn [skipn]. rewrite !firstn_all, Ht.
+  rewrite (forallb_map_eq (allows_marks s ty) node_marks l), (forallb_map_eq (allows_marks s ty) node_marks l'), Hm.
+  reflexivity.
+Qed.
+
+Lemma replace_child_map {B} (g : node -> B) : forall l i old n,
+  nth_error l i = Some old -> g n = g old -> map g (replace_child l i n) = map g l.
+Proof.
+  unfold replace_child. induction l as [|x l IH]; intros i old n Hn Hg; [destruct i; discriminate|].
+  destruct i as [|i]; simpl in *.
+  - inversion Hn; subst. rewrite Hg. reflexivity.
+  - f_equal. eapply IH; eauto.
+Qed.
+
+Lemma replace_child_VL l i n : VL l -> V n -> VL (replace_child l i n).
+Proof.
+  intros Hl Hn. unfold replace_child. apply VL_app; [apply VL_firstn; auto|].
+  apply VL_app; [apply VL_cons; auto; apply VL_nil|apply VL_skipn; auto].
+Qed.
+
+Lemma forallb_check_VL l : VL l -> forallb (check s) l = true.
+Proof. intros H. apply forallb_forall. exact H. Qed.
+
+Lemma replace_child_V ty a m cs i old inner :
+  V (Elem ty a m cs) -> nth_error cs i = Some old -> V inner ->
+  node_ty s inner = node_ty s old -> node_marks inner = node_marks old ->
+  V (Elem ty a m (replace_child cs i inner)).
+Proof.
+  intros Hv Hn Hi Ht Hm. pose proof (V_children _ _ _ _ Hv) as Hcs.
+  unfold V in *. rewrite check_elem in *. apply andb_prop in Hv. destruct Hv as [Hv _].
+  apply andb_prop in Hv. destruct Hv as [Hvc Hmc].
+  rewrite (valid_content_ext ty _ cs), Hvc, Hmc; [|eapply replace_child_map; eauto..]. simpl.
+  apply forallb_check_VL. apply replace_child_VL; auto.
+Qed.
+
+(* ---------------------------------------------------------------- replace_outer *)
+Lemma node_copy_markup n c : node_ty s (node_copy n c) = node_ty s n /\ node_marks (node_copy n c) = node_marks n.
+Proof. destruct n; simpl; auto. Qed.
+
+Lemma close_copy n c r : close s n c = Ok r -> r = node_copy n c.
+Proof. unfold close. destruct (valid_content s (node_ty s n) c); [|discriminate]. intros H; inversion H; auto. Qed.
+
+Lemma replace_outer_markup fuel from to sl depth r :
+  replace_outer s fuel from to sl depth = Ok r ->
+  (exists n, rp_node from depth = Ok n /\ node_ty s r = node_ty s n /\ node_marks r = node_marks n) /\
+  (exists ti, rp_index to depth = Ok ti).
+Proof.
+  destruct fuel as [|fuel]; [discriminate|]. cbn [replace_outer].
+  destruct (rp_index from depth) as [index|]; [|discriminate]. cbn [bind].
+  destruct (rp_node from depth) as [n|] eqn:En; [|discriminate]. cbn [bind].
+  destruct (rp_index to depth) as [tindex|]; [|discriminate]. cbn [bind].
+  intros H. split; [|eauto]. exists n. split; auto.
+  destruct ((index =? tindex) && (depth <? rp_depth from - sl_open_start sl)).
+  { destruct (replace_outer s fuel from to sl (S depth)); [|discriminate]. cbn [bind] in H. inversion H; subst.
+    apply node_copy_markup. }
+  destruct (frag_size s (sl_content sl) =? 0).
+  { destruct (replace_two_way s (S (rp_depth from)) from to depth); [|discriminate]. cbn [bind] in H.
+    apply close_copy in H. subst. apply node_copy_markup. }
+  destruct ((sl_open_start sl =? 0) && (sl_open_end sl =? 0) && (rp_depth from =? depth) && (rp_depth to =? depth)) eqn:Ec.
+  { apply andb_prop in Ec. destruct Ec as [Ec _]. apply andb_prop in Ec. destruct Ec as [_ Ed]. apply Nat.eqb_eq in Ed.
+    unfold rp_parent in H. rewrite Ed, En in H. cbn [bind] in H.
+    destruct (frag_cut s (node_content n) 0 (rp_parent_offset from)); [|discriminate]. cbn [bind] in H.
+    destruct (frag_cut s (node_content n) (rp_parent_offset to) (frag_size s (node_content n))); [|discriminate]. cbn [bind] in H.
+    apply close_copy in H. subst. apply node_copy_markup. }
+  destruct (prepare_slice s sl from) as [[st en]|]; [|discriminate]. cbn [bind] in H.
+  destruct (replace_three_way s (S (rp_depth from + rp_depth to + rp_depth st)) from st en to depth); [|discriminate].
+  cbn [bind] in H. apply close_copy in H. subst. apply node_copy_markup.
+Qed.
+
+Definition NoSplitP (r : rpos) : Prop :=
+  exists parent, rp_parent r = Ok parent /\ nosplit (node_content parent) 0 (rp_parent_offset r).
+
+Lemma rp_node_V r d n : PathV r -> rp_node r d = Ok n -> V n.
+Proof.
+  intros Hp Hn. destruct (rp_node_path _ _ _ Hn) as (i & o & Hpa). unfold path_at in Hpa.
+  apply nth_error_In in Hpa. eapply Hp; eauto.
+Qed.
+
+Lemma replace_outer_V : forall fuel from to sl depth r,
+  replace_outer s fuel from to sl depth = Ok r ->
+  PathV from -> PathV to -> linked (rp_path from) -> linked (rp_path to) -> TextAt from -> TextAt to ->
+  NoSplitP from -> NoSplitP to ->
+  rp_node from depth = rp_node to depth ->
+  (sl_open_start sl = 0 -> sl_open_end sl = 0 -> VL (sl_content sl)) ->
+  depth <= rp_depth from - sl_open_start sl ->
+  (forall st en, prepare_slice s sl from = Ok (st, en) ->
+     LastOK st /\ TextAt st /\ LastOK en /\ TextAt en /\ PathMC en /\
+     forall d, d <= rp_depth from - sl_open_start sl -> Sides from to st en d) ->
+  V r.
+Proof.
+  induction fuel as [|fuel IH]; intros from to sl depth r H Hvf Hvt Hlf Hlt Htf Htt Hnf Hnt Hsame Hclosed Hdepth Hprep;
+    [discriminate|].
+  cbn [replace_outer] in H.
+  destruct (rp_index from depth) as [index|] eqn:Ei; [|discriminate]. cbn [bind] in H.
+  destruct (rp_node from depth) as [n|] eqn:En; [|discriminate]. cbn [bind] in H.
+  destruct (rp_index to depth) as [tindex|] eqn:Eti; [|discriminate]. cbn [bind] in H.
+  assert (Hn : V n) by (eapply rp_node_V; eauto).
+  destruct ((index =? tindex) && (depth <? rp_depth from - sl_open_start sl)) eqn:Edesc.
+  { destruct (replace_outer s fuel from to sl (S depth)) as [inner|] eqn:Einner; [|discriminate]. cbn [bind] in H.
+    inversion H; subst r. clear H.
+    apply andb_prop in Edesc. destruct Edesc as [Eidx Elt]. apply Nat.eqb_eq in Eidx. subst tindex.
+    apply Nat.ltb_lt in Elt.
+    destruct (replace_outer_markup _ _ _ _ _ _ Einner) as ((n' & En' & Hty & Hmk) & (ti' & Eti')).
+    destruct (rp_node_path _ _ _ En') as (i1 & o1 & Hp1).
+    destruct (rp_index_path _ _ _ Ei) as (n0 & o0 & Hp0).
+    assert (n0 = n) by (unfold rp_node in En; rewrite Hp0 in En; inversion En; auto). subst n0.
+    assert (Hchild : child_at n index = Some n') by (eapply Hlf; eauto).
+    destruct (rp_index_path _ _ _ Eti') as (n2 & o2 & Hp2).
+    destruct (rp_index_path _ _ _ Eti) as (n3 & o3 & Hp3).
+    assert (Hto : rp_node to depth = Ok n) by congruence.
+    assert (n3 = n) by (unfold rp_node in Hto; rewrite Hp3 in Hto; inversion Hto; auto). subst n3.
+    assert (Hchild2 : child_at n index = Some n2) by (eapply Hlt; eauto).
+    assert (n2 = n') by congruence. subst n2.
+    assert (Hinner : V inner).
+    { eapply IH; eauto; try lia. rewrite En'. unfold rp_node. rewrite Hp2. reflexivity. }
+    destruct n as [t m|ty a m cs]; [destruct index; discriminate|]. cbn [node_copy node_content].
+    eapply replace_child_V; eauto. }
+  destruct (frag_size s (sl_content sl) =? 0).
+  { destruct (replace_two_way s (S (rp_depth from)) from to depth) as [c|] eqn:E2; [|discriminate]. cbn [bind] in H.
+    eapply close_V; [exact H|apply V_MC; auto|].
+    eapply two_way_VL; eauto using PathV_BeforeFrom, PathV_PathMC, PathV_AfterFrom, PathV_LastOK. }
+  destruct ((sl_open_start sl =? 0) && (sl_open_end sl =? 0) && (rp_depth from =? depth) && (rp_depth to =? depth)) eqn:Ec.
+  { apply andb_prop in Ec. destruct Ec as [Ec Edt]. apply andb_prop in Ec. destruct Ec as [Ec Edf].
+    apply andb_prop in Ec. destruct Ec as [Eos Eoe].
+    apply Nat.eqb_eq in Edt, Edf, Eos, Eoe.
+    destruct Hnf as (pf & Epf & Hnsf). destruct Hnt as (pt & Ept & Hnst).
+    unfold rp_parent in *. rewrite Edf, En in Epf. inversion Epf; subst pf.
+    assert (Hto : rp_node to depth = Ok n) by congruence.
+    rewrite Edt, Hto in Ept. inversion Ept; subst pt.
+    rewrite Edf, En in H. cbn [bind] in H.
+    destruct (frag_cut s (node_content n) 0 (rp_parent_offset from)) as [a|] eqn:Ea; [|discriminate]. cbn [bind] in H.
+    destruct (frag_cut s (node_content n) (rp_parent_offset to) (frag_size s (node_content n))) as [b|] eqn:Eb; [|discriminate].
+    cbn [bind] in H.
+    assert (Hcs : VL (node_content n)).
+    { destruct n as [t m|ty a0 m cs]; [apply VL_nil|]. eapply V_children; eauto. }
+    eapply close_V; [exact H|apply V_MC; auto|].
+    apply frag_append_VL; [apply frag_append_VL; auto|].
+    - eapply frag_cut_VL; [exact Hcs| |exact Hnsf|exact Ea]. apply nosplit_before. lia.
+    - eapply frag_cut_VL; [exact Hcs|exact Hnst| |exact Eb]. apply nosplit_after. lia. }
+  destruct (prepare_slice s sl from) as [[st en]|] eqn:Eprep; [|discriminate]. cbn [bind] in H.
+  destruct (replace_three_way s (S (rp_depth from + rp_depth to + rp_depth st)) from st en to depth) as [c|] eqn:E3;
+    [|discriminate]. cbn [bind] in H.
+  destruct (Hprep _ _ eq_refl) as (Has & Hts & Hbe & Hte & Hme & Hsd).
+  eapply close_V; [exact H|apply V_MC; auto|].
+  eapply three_way_VL; eauto using PathV_BeforeFrom, PathV_PathMC, PathV_AfterFrom, PathV_LastOK.
+Qed.
+
+Lemma prepare_slice_TextAt sl along st en : prepare_slice s sl along = Ok (st, en) -> TextAt st /\ TextAt en.
+Proof.
+  unfold prepare_slice. destruct (rp_node along (rp_depth along - sl_open_start sl)) as [n|]; [|discriminate]. cbn [bind].
+  destruct (wrap_up along (rp_depth along - sl_open_start sl) (node_copy n (sl_content sl))) as [w|]; [|discriminate].
+  cbn [bind]. destruct (frag_size s (node_content w) <? sl_open_end sl + (rp_depth along - sl_open_start sl)); [discriminate|].
+  destruct (resolve s w (sl_open_start sl + (rp_depth along - sl_open_start sl))) as [a|] eqn:Ea; [|discriminate]. cbn [bind].
+  destruct (resolve s w (frag_size s (node_content w) - sl_open_end sl - (rp_depth along - sl_open_start sl))) as [b|] eqn:Eb;
+    [|discriminate]. cbn [bind]. intros H; inversion H; subst.
+  split; [apply (resolve_spec _ _ _ Ea)|apply (resolve_spec _ _ _ Eb)].
+Qed.
+
+(* Node.replace returns a valid document whenever it returns one.  For an open slice the sides of the
+   prepared slice must consist of valid nodes (the hypothesis is on the slice, not on the result). *)
+Theorem node_replace_valid doc from to sl d' :
+  V doc -> node_replace s doc from to sl = Ok d' ->
+  (sl_open_start sl = 0 -> sl_open_end sl = 0 -> VL (sl_content sl)) ->
+  (forall rf rt st en, resolve s doc from = Ok rf -> resolve s doc to = Ok rt -> prepare_slice s sl rf = Ok (st, en) ->
+     LastOK st /\ LastOK en /\ PathMC en /\
+     forall d, d <= rp_depth rf - sl_open_start sl -> Sides rf rt st en d) ->
+  V d'.
+Proof.
+  intros Hd H Hclosed Hprep. unfold node_replace in H.
+  destruct (resolve s doc from) as [rf|] eqn:Ef; [|discriminate]. cbn [bind] in H.
+  destruct (resolve s doc to) as [rt|] eqn:Et; [|discriminate]. cbn [bind] in H.
+  unfold replace_rp in H. destruct (rp_depth rf <? sl_open_start sl); [discriminate|].
+  destruct (negb _); [discriminate|].
+  destruct (resolve_spec _ _ _ Ef) as (_ & Hlf & Htf & (i1 & o1 & r1 & Hh1) & Hnf).
+  destruct (resolve_spec _ _ _ Et) as (_ & Hlt & Htt & (i2 & o2 & r2 & Hh2) & Hnt).
+  eapply replace_outer_V; eauto using resolve_PathV.
+  - unfold rp_node, path_at. rewrite Hh1, Hh2. reflexivity.
+  - lia.
+  - intros st en Hp. destruct (prepare_slice_TextAt _ _ _ _ Hp) as [Hts Hte].
+    destruct (Hprep _ _ _ _ eq_refl eq_refl Hp) as (Ha & Hb & Hm & Hsd). auto 10.
 Qed.
 
 End WithSchema.
